@@ -15,7 +15,7 @@ Kernel behaviour that is modelled (and exercised against the real kernel by the 
 `mkdir` keeps only the permission and sticky bits of its mode argument and inherits set-group-ID
 from the parent; `open(O_CREAT)` keeps all twelve mode bits (root); both apply the umask and
 refresh the parent's modification time; a path with a trailing slash must name a directory;
-`NAME_MAX`/`PATH_MAX`; `utimes` rejects microseconds outside [0, 10^6).  Permission checks are not
+`NAME_MAX`/`PATH_MAX`; `utimes` rejects microseconds outside [0, 10^6) (up to the C library's wrap-around, `wrapOk`).  Permission checks are not
 modelled (root).  A modification time is `none` when it was last set by the kernel clock ("now")
 and `some t` when it is a known value (initial snapshot, or set by `utimes`).
 -/
@@ -183,9 +183,33 @@ def fchmodAt (fs : FS) (p : Path) (mode : Nat) : FS := fun q =>
 
 def usecOk (t : Time) : Bool := decide (0 ≤ t.usec) && decide (t.usec < 1000000)
 
+/-- What the C library makes of microseconds outside [0, 10^6).  glibc >= 2.34 implements `utimes(3)` on top of
+`utimensat(2)`: it converts each `timeval` to a `timespec` first -- `tv_nsec = tv_usec * 1000` in 64-bit two's
+complement arithmetic, without a range check -- and the kernel then checks `0 <= tv_nsec < 10^9`.  So
+`tv_usec = 2^61` (times 1000 = 125 * 2^64) is accepted as 0 nanoseconds.  Older C libraries hand the `timeval`s
+to the kernel, which checks the microseconds themselves.  Which one is present is probed on every run
+(`PCP_UTIMES_WRAPS`, harness/consts/pcp.c calls `utimes` with `tv_usec = LONG_MIN`). -/
+def wrapNsec (usec : Int) : Int := (usec * 1000 + 2 ^ 63) % 2 ^ 64 - 2 ^ 63
+
+def wrapOk (t : Time) : Bool :=
+  PCP_UTIMES_WRAPS == 1 && decide (0 ≤ wrapNsec t.usec) && decide (wrapNsec t.usec < 1000000000)
+
+/-- the time that is stored when `wrapOk` lets an out-of-range `tv_usec` through -/
+def wrapTime (t : Time) : Time := ⟨t.sec, wrapNsec t.usec / 1000⟩
+
+/-- `utimes` once the times are accepted -/
+def utimesAt (fs : FS) (cwd : Path) (s : Str) (mt : Time) : Option (FS × Path) :=
+  match stat fs cwd s with
+  | none => none
+  | some (p, n) => some (fs.set p (n.setMtime (some mt)), p)
+
 /-- `utimes(path, {atime, mtime})` -/
 def utimes (fs : FS) (cwd : Path) (s : Str) (atm mt : Time) : Option (FS × Path) :=
-  if !(usecOk atm && usecOk mt) then none       -- EINVAL
+  if !(usecOk atm && usecOk mt) then
+    -- EINVAL, unless the C library's multiplication wraps the value into the valid range
+    if (usecOk atm || wrapOk atm) && (usecOk mt || wrapOk mt) then
+      utimesAt fs cwd s (if usecOk mt then mt else wrapTime mt)
+    else none
   else match stat fs cwd s with
     | none => none
     | some (p, n) => some (fs.set p (n.setMtime (some mt)), p)
